@@ -6,4 +6,4 @@ for id in "$@"; do
   /verif/check "$id" > /var/tmp/try_seed.out 2>/var/tmp/try_seed.err; rc=$?
   echo "== $id exit=$rc: $(grep -E 'VIOLATION|KNOWN|ERROR' /var/tmp/try_seed.out | head -3)"
 done
-git -C /repo checkout -- . 
+git -C /repo checkout -- . ; python3 /verif/tools/translate.py >/dev/null
